@@ -7,6 +7,7 @@ Driver for C20.  `input.kind` selects the sub-check:
   "stats"  the statistics block of Group.ReportResults on a vector of check counts
   "track"  the real ProgressTelemetry under a scripted schedule (virtual time)
   "sim"    one run of the real simulator (child process): verdict, summary, record
+  "transmit" un-timed concurrent stress of the real OCR3TransmitLoader (child process)
 -/
 open Lean AutoVerif.Codec
 namespace AutoVerif.C20
@@ -142,13 +143,24 @@ def handleExpect (input impl : Json) : R Reply := do
   let got ← intF impl "expected"
   let ns ← strF impl "namespace"
   let genSame ← boolF impl "gen_same"
-  let nsWant := if want = 0 then "No upkeep perform events expected" else "Collecting upkeep perform events"
+  let nsWant := transmitNamespace want
   let agree := err = "" && got = (want : Int) && ns = nsWant && genSame
-  pure { agree := agree, specModel := true, specImpl := true,
+  let sm := registeredOk ups logs want nsWant
+  let si := err = "" && registeredOk ups logs got ns
+  let periodicLog := ups.any fun u => u.type == .logTrigger && !u.alwaysEligible && !u.eligibleAt.isEmpty
+  let fail :=
+    if si then ""
+    else if err ≠ "" then s!"the transmit loader could not be created: {err}"
+    else s!"registered expected-perform count {got} ({ns}) differs from the count the plan expects {expectedSpec ups logs} ({transmitNamespace (expectedSpec ups logs)})"
+  pure { agree := agree, specModel := sm, specImpl := si, fail := fail,
          diff := if agree then "" else s!"expected performs: model={want} ns={nsWant} impl={got} ns={ns} err={err} gen_same={genSame}",
          nontrivial := decide (ups.length ≥ 1),
          tags := "expect" :: ((if want = 0 then ["negative-assert"] else ["positive-assert"]) ++
            (if ups.any (fun u => u.type == .logTrigger && u.expected) then ["log-upkeeps"] else []) ++
+           (if periodicLog then ["periodic-log-upkeep"] else []) ++
+           (if periodicLog && ups.any (fun u => u.type == .logTrigger && !u.alwaysEligible && u.expected &&
+                logs.any (fun l => logCounts u l && u.eligibleAt.head?.any (fun b => decide (b < l.triggerAt)))) then
+              ["log-after-first-eligible-block"] else []) ++
            (if ups.any (fun u => !u.expected) then ["unexpected-upkeeps"] else [])) }
 
 /-! ### "stats" -/
@@ -359,6 +371,42 @@ def handleSim (input impl : Json) : R Reply := do
          fail := fail, nontrivial := true, tags := tags,
          key := s!"sim:{(strF input "name").toOption.getD ""}:{expected}:{performed}:{got}" }
 
+/-! ### "transmit" -/
+
+def handleTransmit (input impl : Json) : R Reply := do
+  let rounds ← natF input "rounds"
+  let k ← natF input "k"
+  let per ← natF input "per_report"
+  -- model: in every round the k nodes submit the same key; whatever the order, one is accepted
+  let keysOfRound (r : Nat) : List String := List.replicate k s!"round{r}"
+  let modelAccepted := ((List.range (min rounds 50)).map fun r => (accepted (keysOfRound r)).length).sum
+  let crash := (strF impl "crash").toOption.getD ""
+  let races ← natF impl "races"
+  let raceSites := (listF asStr impl "race_sites").toOption.getD []
+  let acc ← natF impl "accepted_total"
+  let multi ← natF impl "multi_rounds"
+  let zeroR ← natF impl "zero_rounds"
+  let loaded ← natF impl "loaded"
+  let incs ← natF impl "increments"
+  let results ← natF impl "results"
+  let done ← natF impl "rounds_done"
+  let sm := decide (modelAccepted = min rounds 50) || k = 0
+  let countsOk := done = rounds && acc = rounds && multi = 0 && zeroR = 0 && loaded = rounds &&
+    incs = rounds * per && results = rounds
+  let si := crash = "" && races = 0 && countsOk
+  let fail :=
+    if si then ""
+    else if races ≠ 0 then s!"data race in repository code ({races}): {raceSites.eraseDups}"
+    else if crash ≠ "" then s!"transmit loader crashed under concurrent Transmit: {crash} at {(strF impl "crash_at").toOption.getD ""}"
+    else if multi ≠ 0 || decide (loaded > rounds) || decide (incs > rounds * per) then
+      s!"the same (report, round) accepted more than once ({multi} of {rounds} rounds): {loaded} transmits loaded and perform counter {incs} instead of {rounds} and {rounds * per}"
+    else s!"a (report, round) was not accepted or not counted exactly once: accepted {acc}, loaded {loaded}, perform counter {incs}, results {results}, rounds done {done} of {rounds}"
+  pure { agree := si, specModel := sm, specImpl := si,
+         diff := if si then "" else s!"model: 1 accepted per round; impl accepted={acc} multi={multi} zero={zeroR} loaded={loaded} increments={incs} crash={crash}",
+         fail := fail, nontrivial := decide (k ≥ 2 ∧ rounds ≥ 1),
+         tags := ["transmit", s!"k={k}"] ++ (if (boolF impl "race_build").toOption.getD false then ["race-build"] else []),
+         key := s!"transmit:{rounds}:{k}:{per}" }
+
 def handle (input impl : Json) : R Reply := do
   match ← strF input "kind" with
   | "plan" => handlePlan input impl
@@ -366,6 +414,7 @@ def handle (input impl : Json) : R Reply := do
   | "stats" => handleStats input impl
   | "track" => handleTrack input impl
   | "sim" => handleSim input impl
+  | "transmit" => handleTransmit input impl
   | k => throw s!"unknown C20 case kind {k}"
 
 end AutoVerif.C20
